@@ -235,7 +235,9 @@ theorem nhRel_step {t t' : Table} {op : Op} {r : Res} (fl : Flags) {m : NhMap} (
         · exact h f n x0 hx0
         · intro e
           simp only [Prod.mk.injEq] at e
-          exact hnr ⟨e.1, e.2.1, e.2.2.1, e.2.2.2⟩
+          rcases hnr with hlim | hnr
+          · exact hl hlim
+          · exact hnr ⟨e.1, e.2.1, e.2.2.1, e.2.2.2⟩
       · simp only [Op.inserts] at hins
         obtain ⟨rfl, rfl, hs, hr, hn, hi, _, _⟩ := hins
         rw [hs, hr, hn, hi]
